@@ -1287,7 +1287,7 @@ Definition strip_problem_info (item : encoded) : encoded :=
 Definition nonzero (n : N) : option N := if n =? 0 then None else Some n.   (* NonZeroU32::new *)
 
 Definition max_size_of (c : ecodec) : N :=
-  if negb (ec_max_out_size c =? 0) then ec_max_out_size c else MAX_PACKET_SIZE.
+  if negb (ec_max_out_size c =? 0) then N.min (ec_max_out_size c) MAX_PACKET_SIZE else MAX_PACKET_SIZE.
 
 (* Codec::encode_item: what it appended to dst, its result, the codec afterwards *)
 Definition encode_item (c : ecodec) (item0 : encoded) : wr * ecodec :=
@@ -1305,8 +1305,11 @@ Definition encode_item (c : ecodec) (item0 : encoded) : wr * ecodec :=
       else (wlet (check_frame_size c content_size) (fun _ => packet_encode pkt content_size), c)
     end
   | EPublish pkt buf =>
-    let content_size := publish_encoded_size pkt max_size mod TWO32 in     (* `as u32` *)
+    (* compared as usize BEFORE the cast to u32 (content_size <= max_size <= MAX_PACKET_SIZE afterwards) *)
+    let content_size := publish_encoded_size pkt max_size in
     if max_size <? content_size then (wfail EE_OverMaxPacketSize, c)
+    else if match buf with Some b => p_payload_size pkt <? len b | None => false end
+    then (wfail EE_OverPublishSize, c)
     else
       match check_frame_size c content_size with
       | Ok _ =>
